@@ -139,14 +139,18 @@ func c06r5(c *core.Ctx) {
 					reports = any && all
 				}
 				sels = append(sels, selInfo{fn, ctxP, reports, sel.Pos()})
-				if ei < 0 && !reports {
+				if ei < 0 && !reports && !canReportByObject(fn) {
 					swallower[fn] = true
 				}
 			}
 		}
 	}
 	for _, s := range sels {
-		if errResult(s.fn) < 0 {
+		if errResult(s.fn) < 0 && !canReportByObject(s.fn) {
+			continue
+		}
+		if why, ok := c06r5Exceptions[core.SSAName(s.fn)]; ok {
+			c.Pass(core.SSAName(s.fn)+"|done-case-returns-ctx-error", p.Pos(s.pos), "reasoned exception: "+why)
 			continue
 		}
 		c.Check(s.reports, core.SSAName(s.fn)+"|done-case-returns-ctx-error", p.Pos(s.pos),
@@ -196,4 +200,17 @@ func c06r5(c *core.Ctx) {
 		c.Info("C06-R5: %s observes cancellation without reporting it (no error result)", core.SSAName(f))
 	}
 	c.Stat("selects_on_ctx", len(sels))
+}
+
+// canReportByObject: the function's single result is an object.Object: it can
+// report cancellation as an error object (object.NewError(ctx.Err())).
+func canReportByObject(fn *ssa.Function) bool {
+	res := fn.Signature.Results()
+	return res.Len() == 1 && core.IsNamed(res.At(0).Type(), pkgPath("object"), "Object")
+}
+
+// One named function each, with the reason.
+var c06r5Exceptions = map[string]string{
+	"modules/http.ListenAndServe":    "a server: cancellation means graceful shutdown; after the select it shuts the server down and returns the listener's error (http.ErrServerClosed), it does not go on as if the wait had completed",
+	"modules/http.ListenAndServeTLS": "same as ListenAndServe",
 }
